@@ -21,9 +21,9 @@ EXPLANATION = (
     "Does NOT decide: liveness, all interleavings of >= 2 heartbeats beyond the single-flight structure, bit-identity "
     "of reassembly beyond append order.")
 RULES = {
-    'R1': 'single-flight guard: CALLERS, GATE, SAVED across Yield, constructor confinement, flag arms',
+    'R1': 'single-flight guard: CALLERS, GATE, SAVED across Yield, constructor confinement, flag arms; exact conditions of the call site (liveness)',
     'R2': 'WRITERS of SyncingState.{is_fetching_blocks,response_to_process}; CALLERS(reset_syncing_state)',
-    'R3': 'TABLE(maybe_get_successors_request)',
+    'R3': 'TABLE(maybe_get_successors_request); the block-hash enumeration visits the whole tree',
     'R4': 'reply handling table of the closure that stores the response',
     'R5': 'no RefCell Ref/RefMut in the coroutine layout of the fetching future',
     'R6': 'heartbeat phase order; non-complete response is put back unchanged',
